@@ -740,11 +740,21 @@ func injectorNameForms(name string, kind int) *spec.Spec {
 // and a third injector takes the implementation from an injector-level
 // provider. What one list says about "the provider of *PgRepo" must not reach
 // the lists migrated after it (in either order: the sets are written
-// dev-first in variant 1).
+// dev-first in variant 1). Variant 2 declares the interface in a sibling
+// package whose only mention in the wire files is the Bind's type argument.
 func perEnvironmentBinds(name string, variant int) *spec.Spec {
 	b := newBuilder(name)
 	cfg := b.nstr("Dsn", "")
-	repoI := b.iface("Repo")
+	repoI := -1
+	if variant == 2 {
+		// the interface lives in a sibling package that the wire file names
+		// nowhere but inside wire.Bind(new(port.Repo), ...)
+		port := b.ext("port", "port", "")
+		repoI = b.typ(&spec.Type{Kind: spec.KIface, Name: "Repo", Pkg: port})
+		b.s.Features = append(b.s.Features, "package-named-only-as-bind-type-argument")
+	} else {
+		repoI = b.iface("Repo")
+	}
 	pg := b.typ(&spec.Type{Kind: spec.KStruct, Name: "PgRepo", Impl: []int{repoI}, PtrRecv: true})
 	ppg := b.ptr(pg)
 	svc := b.ptr(b.strct("Service", ""))
@@ -765,6 +775,29 @@ func perEnvironmentBinds(name string, variant int) *spec.Spec {
 	b.s.WireAllInSets = true
 	b.s.WireBindsStay = true
 	b.s.Features = append(b.s.Features, "same-implementation-bound-in-several-sets-each-with-its-own-constructor")
+	return b.s
+}
+
+// thirdPartyGeneratedTypes: the package holds a file written by another code
+// generator (header "Code generated by sqlc. DO NOT EDIT.") that declares the
+// unexported types settings and queries; fallible providers return them, one
+// injector requests settings itself. The variables derived from those types
+// must not take the types' own names: `var zero settings` follows.
+func thirdPartyGeneratedTypes(name string, async bool) *spec.Spec {
+	b := newBuilder(name)
+	st := b.typ(&spec.Type{Kind: spec.KRaw, Raw: "settings", BaseVar: "settings", RawNames: []string{"settings"}})
+	qt := b.typ(&spec.Type{Kind: spec.KRaw, Raw: "*queries", BaseVar: "queries", RawNames: []string{"queries"}})
+	b.s.GeneratedDecl += "type settings struct{ name string }\n\ntype queries struct{ n int }\n"
+	p1 := b.fn("LoadSettings", "", nil, []int{st}, async, true)
+	p2 := b.fn("OpenQueries", "", []int{st}, []int{qt}, false, true)
+	p3 := b.fn("CountRows", "", nil, []int{b.nint("RowCount", "")}, async, true)
+	app := b.ptr(b.strct("App", ""))
+	p4 := b.fn("NewApp", "", []int{qt, b.s.Provs[p3].Results[0]}, []int{app}, false, false)
+	b.inject("InitializeSettings", st, p1)
+	b.inject("InitializeQueries", qt, p1, p2)
+	b.inject("InitializeApp", app, p1, p2, p3, p4)
+	b.s.Dynamic = false
+	b.s.Features = append(b.s.Features, "types-declared-in-a-file-generated-by-another-tool")
 	return b.s
 }
 
@@ -803,7 +836,7 @@ func renamed(s *spec.Spec, name string) *spec.Spec {
 func corpusSpecs(prop string) []*spec.Spec {
 	switch prop {
 	case "C13":
-		return []*spec.Spec{twinConfigs("k13a", false), twinConfigs("k13b", true), sameNamedPackages("k13c"), structOfSameNamedPackage("k13s"), perEnvironmentBinds("k13e", 0), perEnvironmentBinds("k13f", 1)}
+		return []*spec.Spec{twinConfigs("k13a", false), twinConfigs("k13b", true), sameNamedPackages("k13c"), structOfSameNamedPackage("k13s"), perEnvironmentBinds("k13e", 0), perEnvironmentBinds("k13f", 1), perEnvironmentBinds("k13g", 2)}
 	case "C14":
 		h := sameNamedPackages("k14h")
 		// an input-free provider in the main package for the local helper to wrap
@@ -815,7 +848,7 @@ func corpusSpecs(prop string) []*spec.Spec {
 		h.Injectors[0].Items = append(h.Injectors[0].Items, spec.Item{Prov: pl})
 		h.WireLocalHelper = true
 		h.Features = append(h.Features, "provider-declared-in-the-wire-file")
-		return []*spec.Spec{twinConfigs("k14a", false), twinConfigs("k14b", true), sameNamedPackages("k14c"), h, sameLocalNameInTwoWireFiles("k14v"), localNameEqualsForeignPackage("k14n"), structOfSameNamedPackage("k14s"), perEnvironmentBinds("k14e", 0)}
+		return []*spec.Spec{twinConfigs("k14a", false), twinConfigs("k14b", true), sameNamedPackages("k14c"), h, sameLocalNameInTwoWireFiles("k14v"), localNameEqualsForeignPackage("k14n"), structOfSameNamedPackage("k14s"), perEnvironmentBinds("k14e", 0), perEnvironmentBinds("k14g", 2)}
 	case "C04", "C12":
 		var fs []*spec.Spec
 		for k := 0; k < 4; k++ {
@@ -831,6 +864,7 @@ func corpusSpecs(prop string) []*spec.Spec {
 		fs = append(fs, spelledTwoWays("kt"+prop[1:]+"s", false), spelledTwoWays("kt"+prop[1:]+"a", true))
 		fs = append(fs, unicodeTypeNames("ku"+prop[1:]+"s", false), unicodeTypeNames("ku"+prop[1:]+"a", true))
 		fs = append(fs, resultTypeShapes("kr"+prop[1:]))
+		fs = append(fs, thirdPartyGeneratedTypes("kg"+prop[1:]+"s", false), thirdPartyGeneratedTypes("kg"+prop[1:]+"a", true))
 		fs = append(fs, sharedSetAliasedImport("kh"+prop[1:]+"s", false), sharedSetAliasedImport("kh"+prop[1:]+"a", true))
 		fs = append(fs, dotImported("kd"+prop[1:]+"s", false), dotImported("kd"+prop[1:]+"a", true))
 		fs = append(fs, bindVariadic("kb"+prop[1:]+"s", false, false), bindVariadic("kb"+prop[1:]+"a", true, false), bindVariadic("kb"+prop[1:]+"t", false, true), bindVariadic("kb"+prop[1:]+"b", true, true))
